@@ -295,3 +295,156 @@ theorem shift_disjoint (old : Int) (k : Nat → Nat) (r q : Nat) (hrq : r < q) (
   omega
 
 end Refine.Lemmas.Dist
+
+namespace Refine.Lemmas.Dist
+open Refine.Model.Dist
+
+/-! ### slices on the literal function -/
+
+theorem cntLt_perm (A B : List Int) (h : A.Perm B) (g : Int) : cntLt A g = cntLt B g := by
+  unfold cntLt
+  exact (h.filter _).length_eq
+
+theorem elim_perm (A B : List Int) (h : A.Perm B) (g : Int) : elim A g = elim B g := by
+  unfold elim; rw [cntLt_perm A B h g]
+
+theorem sortGlob_perm (xs : List Int) : (sortGlob xs).Perm xs := by
+  unfold sortGlob
+  split
+  · exact List.Perm.refl _
+  · exact List.mergeSort_perm _ _
+
+theorem isNondecr_cons (a : Int) (l : List Int) (h : Refine.Model.NodeIds.NodeIds.isNondecr (a :: l) = true) :
+    (∀ y ∈ l, a ≤ y) ∧ Refine.Model.NodeIds.NodeIds.isNondecr l = true := by
+  induction l generalizing a with
+  | nil => exact ⟨by simp, rfl⟩
+  | cons b rest ih =>
+    simp only [Refine.Model.NodeIds.NodeIds.isNondecr, Bool.and_eq_true, decide_eq_true_eq] at h
+    have := ih b h.2
+    refine ⟨?_, h.2⟩
+    intro y hy
+    rcases List.mem_cons.mp hy with rfl | hy
+    · exact h.1
+    · have := this.1 y hy; omega
+
+theorem isNondecr_pairwise (l : List Int) (h : Refine.Model.NodeIds.NodeIds.isNondecr l = true) :
+    l.Pairwise (· ≤ ·) := by
+  induction l with
+  | nil => exact List.Pairwise.nil
+  | cons a l ih =>
+    have := isNondecr_cons a l h
+    exact List.Pairwise.cons this.1 (ih this.2)
+
+theorem sortGlob_sorted (xs : List Int) : (sortGlob xs).Pairwise (· ≤ ·) := by
+  unfold sortGlob
+  split
+  · rename_i h; exact isNondecr_pairwise xs h
+  have := List.pairwise_mergeSort (le := fun a b : Int => decide (a ≤ b))
+    (fun a b c hab hbc => by simp only [decide_eq_true_eq] at *; omega)
+    (fun a b => by simp only [Bool.or_eq_true, decide_eq_true_eq]; omega) xs
+  exact this.imp (fun h => by simpa using h)
+
+theorem map_elim_sorted (U gs : List Int) (hU : U.Nodup) (hg : gs.Pairwise (· ≤ ·)) :
+    (gs.map (elim U)).Pairwise (· ≤ ·) := by
+  rw [List.pairwise_map]
+  exact hg.imp fun h => elim_mono U hU _ _ h
+
+/-- two trips of the slice loop of `ref_node_eliminate_unused_globals` as seen by one rank: its sorted ids `gs`
+    are offset by the first slice `A`; the second slice's unused list `B` was itself offset by `A` before it is
+    gathered; the result is the same as one elimination by the sorted union -/
+theorem elimOffset_slices (gs A B : List Int) (hA : A.Pairwise (· ≤ ·)) (hB : B.Pairwise (· ≤ ·))
+    (hg : gs.Pairwise (· ≤ ·)) (hn : (A ++ B).Nodup) (hdis : ∀ g ∈ gs, g ∉ A ++ B) :
+    elimOffset (elimOffset gs A) (elimOffset B A) = elimOffset gs (sortGlob (A ++ B)) := by
+  have hAn : A.Nodup := (List.nodup_append.mp hn).1
+  rw [elimOffset_eq_map gs A hA hg, elimOffset_eq_map B A hA hB,
+    elimOffset_eq_map _ _ (map_elim_sorted A B hAn hB) (map_elim_sorted A gs hAn hg),
+    elimOffset_eq_map gs _ (sortGlob_sorted _) hg, List.map_map]
+  apply List.map_congr_left
+  intro g hgm
+  simp only [Function.comp]
+  rw [elim_slices A B hn g (hdis g hgm)]
+  exact (elim_perm _ _ (sortGlob_perm _) g).symm
+
+end Refine.Lemmas.Dist
+
+namespace Refine.Lemmas.Dist
+open Refine.Model.Dist
+
+/-! ### the abstract description of a world of id states and the map `old id ↦ new id` -/
+
+/-- what `ref_node_synchronize_globals` sees: the common `old_n_global`, per rank the number of fresh ids
+    (`new_n_global - old_n_global`), the live ids and the unused ids -/
+structure IdWorld where
+  old : Int
+  k : List Nat
+  live : List (List Int)
+  unused : List (List Int)
+
+def IdWorld.kOf (w : IdWorld) (r : Nat) : Nat := w.k.getD r 0
+/-- the offset `ref_node_shift_new_globals` adds on rank `r`: the fresh ids of the lower ranks -/
+def IdWorld.off (w : IdWorld) (r : Nat) : Int := (((List.range r).map w.kOf).sum : Nat)
+/-- `old_n_global + total_new_nodes` -/
+def IdWorld.M (w : IdWorld) : Int := w.old + (w.k.sum : Nat)
+def IdWorld.liveOf (w : IdWorld) (r : Nat) : List Int := w.live.getD r []
+/-- all unused ids after the shift, in rank order (what the slices gather, up to order) -/
+def IdWorld.shiftedUnused (w : IdWorld) : List Int :=
+  (w.unused.mapIdx fun r us => us.map (shiftId w.old (w.off r))).flatten
+/-- the id of vertex `g` of rank `r` after the call -/
+def IdWorld.newId (w : IdWorld) (r : Nat) (g : Int) : Int :=
+  elim w.shiftedUnused (shiftId w.old (w.off r) g)
+/-- `n_global` after the call -/
+def IdWorld.N (w : IdWorld) : Int := w.M - w.shiftedUnused.length
+
+/-- the id invariant maintained by `ref_node_next_global` / `ref_node_remove` between two synchronisations -/
+structure IdInv (w : IdWorld) : Prop where
+  old_nonneg : 0 ≤ w.old
+  live_range : ∀ r g, g ∈ w.liveOf r → 0 ≤ g ∧ g < w.old + (w.kOf r : Nat)
+  unused_nodup : w.shiftedUnused.Nodup
+  unused_range : ∀ u ∈ w.shiftedUnused, 0 ≤ u ∧ u < w.M
+  live_not_unused : ∀ r g, g ∈ w.liveOf r → shiftId w.old (w.off r) g ∉ w.shiftedUnused
+  covered : ∀ x, 0 ≤ x → x < w.M → x ∉ w.shiftedUnused →
+    ∃ r g, g ∈ w.liveOf r ∧ shiftId w.old (w.off r) g = x
+
+theorem prefix_sum_le (k : List Nat) : ∀ n, ((List.range n).map fun q => k.getD q 0).sum ≤ k.sum := by
+  induction k with
+  | nil => intro n; simp
+  | cons a k ih =>
+    intro n
+    cases n with
+    | zero => simp
+    | succ m =>
+      rw [List.range_succ_eq_map, List.map_cons, List.map_map, List.sum_cons, List.sum_cons]
+      have := ih m
+      have heq : (List.map ((fun q => (a :: k).getD q 0) ∘ Nat.succ) (List.range m))
+          = List.map (fun q => k.getD q 0) (List.range m) := by
+        apply List.map_congr_left; intro q _; simp
+      rw [heq]
+      simp only [List.getD_cons_zero]
+      omega
+
+theorem off_add_le (w : IdWorld) (r : Nat) : w.off r + (w.kOf r : Nat) ≤ (w.k.sum : Nat) := by
+  have := prefix_sum_le w.k (r + 1)
+  rw [List.range_succ, List.map_append, List.sum_append] at this
+  simp only [List.map_cons, List.map_nil, List.sum_cons, List.sum_nil, Nat.add_zero] at this
+  unfold IdWorld.off
+  have h2 : (List.map w.kOf (List.range r)).sum = (List.map (fun q => w.k.getD q 0) (List.range r)).sum := rfl
+  have h3 : w.kOf r = w.k.getD r 0 := rfl
+  rw [h2, h3]
+  exact_mod_cast this
+
+theorem off_nonneg (w : IdWorld) (r : Nat) : 0 ≤ w.off r := by unfold IdWorld.off; omega
+
+theorem shifted_range (w : IdWorld) (h : IdInv w) (r : Nat) (g : Int) (hg : g ∈ w.liveOf r) :
+    0 ≤ shiftId w.old (w.off r) g ∧ shiftId w.old (w.off r) g < w.M := by
+  have h1 := h.live_range r g hg
+  have h2 := off_add_le w r
+  have h3 := off_nonneg w r
+  have h4 := h.old_nonneg
+  unfold shiftId IdWorld.M
+  split <;> constructor <;> omega
+
+theorem shiftId_strictMono (old off : Int) (hoff : 0 ≤ off) (g g' : Int) (h : g < g') :
+    shiftId old off g < shiftId old off g' := by
+  unfold shiftId; split <;> split <;> omega
+
+end Refine.Lemmas.Dist
